@@ -154,21 +154,44 @@ func Load(repo string, cfg BuildConfig) (*Program, error) {
 		return nil, err
 	}
 	var renames []string
-	if os.Getenv("VERIF_NO_RENAMES") == "" {
-		if ref, rerr := loadSymtab(); rerr == nil && len(ref) > 0 {
-			cur, objs := collectSymbols(byPath)
-			if recs := detectRenames(ref, cfg.Name, cur, objs); len(recs) > 0 {
-				if ov, oerr := buildOverlay(pkgs[0].Fset, byPath, recs); oerr == nil {
-					if bp2, pk2, err2 := loadPackages(repo, cfg, ov); err2 == nil {
-						byPath, pkgs = bp2, pk2
-						for _, r := range recs {
-							renames = append(renames, fmt.Sprintf("%s: %s read as %s", r.Key, r.New, r.Old))
-						}
-					} else {
-						renames = append(renames, "rename overlay did not type-check, analysed as written: "+err2.Error())
+	var overlay map[string][]byte
+	ref, rerr := loadSymtab()
+	if rerr != nil || len(ref) == 0 {
+		ref = nil
+	}
+	if ref != nil && os.Getenv("VERIF_NO_RENAMES") == "" {
+		cur, objs := collectSymbols(byPath)
+		if recs := detectRenames(ref, cfg.Name, cur, objs); len(recs) > 0 {
+			if ov, oerr := buildOverlay(pkgs[0].Fset, byPath, recs); oerr == nil {
+				if bp2, pk2, err2 := loadPackages(repo, cfg, ov); err2 == nil {
+					byPath, pkgs, overlay = bp2, pk2, ov
+					for _, r := range recs {
+						renames = append(renames, fmt.Sprintf("%s: %s read as %s", r.Key, r.New, r.Old))
 					}
+				} else {
+					renames = append(renames, "rename overlay did not type-check, analysed as written: "+err2.Error())
 				}
 			}
+		}
+	}
+	// helpers the reference tree does not know are inlined back (normalize.go)
+	if ref != nil && os.Getenv("VERIF_NO_INLINE") == "" && len(freshFunctions(ref, cfg.Name, byPath)) > 0 {
+		ov2, notes := deextract(repo, cfg, ref, overlay, nil)
+		for _, n := range notes {
+			renames = append(renames, "de-extraction: "+n)
+		}
+		if ov2 != nil && len(ov2) > 0 && !sameOverlay(ov2, overlay) {
+			if bp2, pk2, err2 := loadPackages(repo, cfg, ov2); err2 == nil {
+				byPath, pkgs, overlay = bp2, pk2, ov2
+			} else {
+				renames = append(renames, "de-extraction overlay did not type-check, analysed without it: "+err2.Error())
+			}
+		}
+	}
+	if dir := os.Getenv("VERIF_DUMP_OVERLAY"); dir != "" {
+		os.MkdirAll(dir, 0o755)
+		for name, b := range overlay {
+			os.WriteFile(dir+"/"+strings.ReplaceAll(strings.TrimPrefix(name, "/"), "/", "_"), b, 0o644)
 		}
 	}
 	p := &Program{Cfg: cfg, Pkgs: pkgs, byPath: byPath, Renames: renames}
@@ -334,4 +357,16 @@ func (p *Program) NamedType(pkg *ssa.Package, name string) *types.Named {
 	}
 	n, _ := obj.Type().(*types.Named)
 	return n
+}
+
+func sameOverlay(a, b map[string][]byte) bool {
+	if len(a) != len(b) {
+		return false
+	}
+	for k, v := range a {
+		if w, ok := b[k]; !ok || string(v) != string(w) {
+			return false
+		}
+	}
+	return true
 }
